@@ -1,5 +1,6 @@
 #![allow(dead_code)]
 //! vharness — runtime monitors for vibrato. Driven by /verif/run.
+mod dictprops;
 mod gen;
 mod model;
 mod oracles;
@@ -28,6 +29,7 @@ struct Args {
     index: u64,
     flavour: String,
     stage: String,
+    xdir: String,
 }
 
 fn parse_args() -> Args {
@@ -46,6 +48,7 @@ fn parse_args() -> Args {
         index: 0,
         flavour: "rel".into(),
         stage: "main".into(),
+        xdir: String::new(),
     };
     let mut i = 2;
     while i + 1 < v.len() + 1 {
@@ -66,6 +69,7 @@ fn parse_args() -> Args {
             "--index" => a.index = val.parse().unwrap(),
             "--flavour" => a.flavour = val,
             "--stage" => a.stage = val,
+            "--xdir" => a.xdir = val,
             "--known" => {
                 // file with one known signature per line
                 if let Ok(s) = std::fs::read_to_string(&val) {
@@ -88,12 +92,17 @@ fn witnesses(ctx: &mut Ctx) {
     }
 }
 
-fn run_case(ctx: &mut Ctx, rng: &mut Rng, stage: &str) {
+fn run_case(ctx: &mut Ctx, rng: &mut Rng, stage: &str, xdir: &str) {
     match ctx.prop.as_str() {
         "C01" => tokprops::c01_case(ctx, rng),
         "C02" => tokprops::c02_case(ctx, rng),
         "C03" => tokprops::c03_case(ctx, rng),
         "C04" => tokprops2::c04_case(ctx, rng, stage),
+        "C05" => dictprops::c05_case(ctx, rng, stage, xdir),
+        "C07" => dictprops::c07_case(ctx, rng, stage),
+        "C09" => dictprops::c09_case(ctx, rng, stage),
+        "C11" => dictprops::c11_case(ctx, rng),
+        "C13" => dictprops::c13_case(ctx, rng),
         "C06" => tokprops2::c06_case(ctx, rng),
         "C08" => tokprops2::c08_case(ctx, rng),
         "C12" => tokprops2::c12_case(ctx, rng),
@@ -121,7 +130,7 @@ fn main() {
                 ctx.index = idx;
                 let _ = std::fs::write(&cur, format!("{}", idx));
                 let mut rng = Rng::for_case(a.seed, &a.prop, a.shard, idx);
-                run_case(&mut ctx, &mut rng, &a.stage);
+                run_case(&mut ctx, &mut rng, &a.stage, &a.xdir);
                 done += 1;
             }
             let _ = std::fs::remove_file(&cur);
@@ -147,7 +156,7 @@ fn main() {
                 witnesses(&mut ctx);
             } else {
                 let mut rng = Rng::for_case(a.seed, &a.prop, a.shard, a.index);
-                run_case(&mut ctx, &mut rng, &a.stage);
+                run_case(&mut ctx, &mut rng, &a.stage, &a.xdir);
             }
             let j = ctx.to_json(1, 0.0);
             println!("{}", serde_json::to_string_pretty(&serde_json::json!({"violations": j["violations"], "evaluations": j["evaluations"], "notes": j["notes"]})).unwrap());
